@@ -418,7 +418,7 @@ func checkC20Initial(c *Ctx, newPool *ssa.Function, poolField FieldID) {
 	why := ""
 	for b := range inLoop {
 		for _, s := range b.Succs {
-			if !inLoop[s] && b != header {
+			if !inLoop[s] && b != header && !endsInPanic(s) {
 				// leaving the loop from the body (break/return); panics have no successors
 				why = "the loop over the initial contexts can be left at " + p.Pos(instrPos(b.Instrs[len(b.Instrs)-1])) + " before all of them were considered (later members are never waited for)"
 			}
